@@ -3,6 +3,7 @@
 inspired by:
 https://github.com/sutoiku/formula.js/blob/master/lib/math-trig.js
 """
+import unicodedata
 import math
 from functools import reduce
 import operator
@@ -90,6 +91,38 @@ def UPPER(text):
     return text.upper()
 
 
+# general categories of characters that sit inside a word without having a case of
+# their own: combining marks and modifier letters
+INSIDE_A_WORD = ('Mn', 'Mc', 'Me', 'Lm')
+
+
+def title_keeping_marks(text):
+    """
+    str.title(), except that a combining mark or modifier letter behind a letter
+    does not end the word. title() and lower() produce such characters themselves
+    ('\u0130'.lower() is 'i' + U+0307, '\u01f0'.title() is 'J' + U+030C): taking them for
+    the end of a word made PROPER(PROPER(x)) capitalise the letter behind them.
+    """
+    out = []
+    word = []
+
+    def flush():
+        if word:
+            run = ''.join(word)
+            # lower() on the whole word keeps the final sigma rule
+            out.append(run[0].title() + run.lower()[len(run[0].lower()):])
+            del word[:]
+    for char in text:
+        cased = char.isupper() or char.islower() or char.istitle()
+        if cased or (word and unicodedata.category(char) in INSIDE_A_WORD):
+            word.append(char)
+        else:
+            flush()
+            out.append(char)
+    flush()
+    return ''.join(out)
+
+
 @dispatcher.register_for('PROPER')
 def PROPER(text):
     if isinstance(text, error.XLError):
@@ -98,7 +131,10 @@ def PROPER(text):
         text = ''
     if not isinstance(text, string_types):
         text = str(text)
-    return text.title()
+    result = text.title()
+    if any(unicodedata.category(char) in INSIDE_A_WORD for char in result):
+        return title_keeping_marks(text)
+    return result
 
 
 @dispatcher.register_for('SUBSTITUTE')
